@@ -86,6 +86,37 @@ def main(a):
             for prop in meta.get("check_with", [meta["property"]]):
                 r = run_one(prop, os.path.join(d, "patch.diff"), tier); results.append(r)
                 print("%-8s %-14s %-4s suite=%s exit=%s %ss %s" % (r["status"], i, prop, r.get("suite"), r.get("check_exit"), r.get("wall"), r.get("first", r.get("detail", ""))[:160]), flush=True)
+    elif a[0] == "append":
+        # run the given seeded changes like "all" does and add their rows to mutants/RESULTS.md
+        path = os.path.join(ROOT, "mutants", "RESULTS.md")
+        lines = open(path).read().rstrip("\n").split("\n")
+        cut = next((i for i, l in enumerate(lines) if l.startswith("Retired seeded changes")), len(lines))
+        while cut > 0 and not lines[cut - 1].startswith("|"):
+            cut -= 1
+        new = []
+        for i in a[1:]:
+            d = os.path.join(ROOT, "seeded", i)
+            meta = json.load(open(os.path.join(d, "meta.json")))
+            if meta.get("retired"):
+                continue
+            for prop in meta.get("check_with", [meta["property"]]):
+                lines = [l for l in lines if not l.startswith("| %s | %s |" % (prop, i))]
+                r = run_one(prop, os.path.join(d, "patch.diff"), "quick"); results.append(r)
+                th = ""
+                if r["status"] != "caught":
+                    r2 = run_one(prop, os.path.join(d, "patch.diff"), "thorough"); results.append(r2)
+                    th = r2["status"]
+                    if r2["status"] == "caught":
+                        r["first"] = r2.get("first", "")
+                sig = r.get("first", "")
+                sig = sig[sig.find("sig="):][:90] if "sig=" in sig else ""
+                print("%-8s %-8s %-40s %s %s" % (r["status"], th, i, prop, sig), flush=True)
+                new.append("| %s | %s | seeded | %s | %s | %s | `%s` | %s |" % (prop, i, r.get("suite"), r["status"], th, sig.replace("|", "\\|"), meta.get("needs_to_manifest", "").replace("|", "/")))
+        cut = next((k for k, l in enumerate(lines) if l.startswith("Retired seeded changes")), len(lines))
+        while cut > 0 and not lines[cut - 1].startswith("|"):
+            cut -= 1
+        lines = lines[:cut] + new + lines[cut:]
+        open(path, "w").write("\n".join(lines) + "\n")
     elif a[0] == "all":
         # every hand mutant and every seeded change against the quick tier; whatever the quick tier misses is re-run
         # against the thorough tier; writes mutants/RESULTS.md
